@@ -29,15 +29,23 @@ TRAPS_ORIGINS = (r'^param:c$', r'^param:encapsulation\.c$')
 ENCS_ORIGINS = (r'^param:encs$', r'^param:encapsulation\.encapsulations\.@(H|C)Encs\.0$', r'^local:')
 
 
+def base_origin(u):
+    """`elem(param:encs).0` (a for-loop variable) and `param:encs` (the receiver of an iterator chain) name the same source."""
+    o = u.origin
+    m = re.match(r'^(?:elem\()+([^()]*)\)+(?:\.[^.]+)*$', o)
+    return m.group(1) if m else o
+
+
 def traps_like(u):
     """The iterated points are the traps of the encapsulation: a parameter that is a slice / Vec of points, or
     the `c` field of an XEnc parameter."""
     rt, rp = getattr(u, 'root_ty', ''), tuple(x for x in getattr(u, 'root_path', ()) if not str(x).startswith('@'))
     if re.search(r'core::XEnc$', trans.strip_ref(rt)) and rp[-1:] == ('c',):
         return True
-    if u.origin.startswith('param:') and '.' not in u.origin and re.search(r'(\[|Vec<).*(Point|PublicKey)', rt):
+    bo = base_origin(u)
+    if bo.startswith('param:') and '.' not in bo and re.search(r'(\[|Vec<).*(Point|PublicKey)', rt):
         return True
-    return any(re.search(p, u.origin) for p in TRAPS_ORIGINS)
+    return any(re.search(p, bo) for p in TRAPS_ORIGINS)
 
 
 def encs_like(u):
@@ -46,9 +54,12 @@ def encs_like(u):
         return True
     if u.origin.startswith('local:'):
         return True
-    if u.origin.startswith('param:') and '.' not in u.origin and re.search(r'(\[|Vec<)', rt) and not re.search(r'(Point|PublicKey)', rt):
+    bo = base_origin(u)
+    if bo.startswith('local:'):
         return True
-    return any(re.search(p, u.origin) for p in ENCS_ORIGINS)
+    if bo.startswith('param:') and '.' not in bo and re.search(r'(\[|Vec<)', rt) and not re.search(r'(Point|PublicKey)', rt):
+        return True
+    return any(re.search(p, bo) for p in ENCS_ORIGINS)
 
 
 def role(u):
